@@ -16,7 +16,11 @@ import (
 
 // C16 — repositories are isolated and storage access stays inside the root.
 
-var c16Universe = []string{"a", "a/b", "a/b/c", "ab", "a-b", "b", "a/sha256", "a/blobs", "a/index.json", "a/oci-layout"}
+var c16Universe = []string{"a", "a/b", "a/b/c", "ab", "a-b", "b", "a/sha256", "a/blobs", "a/index.json", "a/oci-layout", c16Alias}
+
+// c16Alias is a grammar-legal nested name whose directory is where repository a keeps the blob l2 (a reserved word in
+// an inner element): the directory backed stores have to refuse it like any other name with a reserved element.
+var c16Alias = "a/blobs/sha256/" + strings.TrimPrefix(StdFix().Items["l2"].Dig, "sha256:")
 
 func c16Reserved(n string) bool {
 	for _, el := range strings.Split(n, "/") {
@@ -88,7 +92,7 @@ func c16PathCheck(w *h.World, logStart int, what, x, src string) []h.Violation {
 func c16Specs(tier string) []*h.SeqSpec {
 	f := StdFix()
 	type pair struct{ x, y string }
-	pairs := []pair{{"a", "a/b"}, {"a/b", "a"}, {"a", "ab"}, {"a/sha256", "a"}, {"a/blobs", "a"}}
+	pairs := []pair{{"a", "a/b"}, {"a/b", "a"}, {"a", "ab"}, {"a/sha256", "a"}, {"a/blobs", "a"}, {c16Alias, "a"}}
 	if tier == "thorough" {
 		pairs = nil
 		base := []string{"a", "a/b", "a/b/c", "ab", "a-b", "b"}
@@ -99,13 +103,13 @@ func c16Specs(tier string) []*h.SeqSpec {
 				}
 			}
 		}
-		for _, x := range []string{"a/sha256", "a/blobs", "a/index.json", "a/oci-layout"} {
+		for _, x := range []string{"a/sha256", "a/blobs", "a/index.json", "a/oci-layout", c16Alias} {
 			pairs = append(pairs, pair{x, "a"}, pair{"a", x})
 		}
 	}
 	big := refDesc(f.Items["A1"])
 	one := int64(len(h.Index(mtIdx, []h.Desc{big}, nil, "", nil))) + 8
-	items := []string{"c", "l1", "e", "I1", "A1", "A2"}
+	items := []string{"c", "l1", "l2", "e", "I1", "A1", "A2"}
 	var specs []*h.SeqSpec
 	stores := []string{"mem", "dir"}
 	if tier == "thorough" {
@@ -331,7 +335,7 @@ func init() {
 		Level: "model_checking",
 		Rule: "for ordered pairs of repository names (nested, prefixes of each other, names equal to layout entries) breadth-first search over all histories (bounded depth) of blob / manifest / artifact pushes, sessions, the session id used through the other name, mounts in both directions and paged referrers links replayed against the other name; " +
 			"in every distinct state the complete read transcript of every name of the universe is compared with the model (nothing may appear where it was not pushed or mounted), and every filesystem call of every request is checked against the addressed repository's own directory, its ancestors (stat/mkdir only) and the root; non-trivial = something pushed",
-		Assume: []string{"name universe: a, a/b, a/b/c, ab, a-b, b, a/sha256, a/blobs, a/index.json, a/oci-layout", "directory backed stores refuse names with reserved elements; their refusal must be a 4xx"},
+		Assume: []string{"name universe: a, a/b, a/b/c, ab, a-b, b, a/sha256, a/blobs, a/index.json, a/oci-layout, a/blobs/sha256/<hex of a blob>", "directory backed stores refuse names with reserved elements; their refusal must be a 4xx"},
 		Specs:  c16Specs,
 		Budget: func(tier string) time.Duration {
 			if tier == "thorough" {
